@@ -12,12 +12,12 @@ CLAIMS = {
 }
 
 CLAIMS.update({
-    'C07': ('proof',
-            'Every premise of the reduction in DESIGN.md §4/C07 is decided on each run over all MIR paths of the counting io::Write adapter and all call sites of the library: byte counter and rolling checksum advance by exactly the bytes the inner writer accepted, short write() occurs nowhere else, every other emission is write_all, the raw sink is reachable only through the adapter/its getters/the trailing checksum write, bytes_written() returns that counter, and counter and checksum start at zero on the writer the builder keeps. Together with std\'s write_all contract this implies the claim for every sink behaviour.',
+    'C07': ('other',
+            'Claimed as STRUCTURAL, not as proof: seed C07-m5 (a second forwarding call before accounting) was outside the premises as first written; the premises listed here are all decided on each run, but completeness of the list is not claimed. ' + 'Every premise of the reduction in DESIGN.md §4/C07 is decided on each run over all MIR paths of the counting io::Write adapter and all call sites of the library: byte counter and rolling checksum advance by exactly the bytes the inner writer accepted, short write() occurs nowhere else, every other emission is write_all, the raw sink is reachable only through the adapter/its getters/the trailing checksum write, bytes_written() returns that counter, and counter and checksum start at zero on the writer the builder keeps. Together with std\'s write_all contract this implies the claim for every sink behaviour.',
             'Trusts the io::Write::write_all contract (all bytes or Err; Interrupted retried; Ok(0) => WriteZero) and that the sink\'s write() reports a correct count. The conclusion "same bytes" is a deduction from the decided premises, not an observation.',
             'path-sensitive MIR dataflow on the io::Write adapter + who-may-call / who-may-touch rules over resolved call sites', '§4 C07'),
-    'C11': ('proof',
-            'Every Result<_, io::Error>/crate Result produced in code generic over the sink is followed (def-use over MIR) to `?`, the return place or an error-preserving combinator; none is dropped, swallowed, matched into success or unwrapped. Every success path of the finishing routine passes the pending-node compilation, both footer writes, the checksum write and a final propagated flush on the raw sink. Emission is write_all only, and io::Error converts to Error::Io.',
+    'C11': ('other',
+            'Claimed as STRUCTURAL, not as proof: seed C11-m6 (an unflushed BufWriter whose Drop discards the error) was a channel the reduction had not listed; the premises listed here are all decided on each run, but completeness of the list is not claimed. ' + 'Every Result<_, io::Error>/crate Result produced in code generic over the sink is followed (def-use over MIR) to `?`, the return place or an error-preserving combinator; none is dropped, swallowed, matched into success or unwrapped. Every success path of the finishing routine passes the pending-node compilation, both footer writes, the checksum write and a final propagated flush on the raw sink. Emission is write_all only, and io::Error converts to Error::Io.',
             'Trusts the `?` desugaring and the write_all contract. Scope is the code generic over W: io::Write; the Vec<u8>-only conveniences unwrap on an infallible sink and are excluded by construction (they are not generic).',
             'def-use error-flow analysis over MIR + must-pass-through on enumerated paths', '§4 C11'),
 })
@@ -69,8 +69,8 @@ CLAIMS.update({
             'Decides the writer half of the format against the declarative table: constants and common-input tables, state-byte tags/fields and sizes-byte nibbles (bit provenance), integer packing (thresholds, endianness), the emission language of every node encoder (order, direction, width, guard, max widths, index table, count byte for 256), form selection over all 48 consistent cases, delta addressing, header/footer words and order (the footer count being the accounted number of keys), and the checksum clause (tables, mask, coverage).',
             '"Decoding by the spec yields exactly the inserted map" inherits the undecided value-level part of C01; the format table itself is a transcription of the format comments at the pinned revision.',
             'emission-language reconstruction from MIR + finite-domain enumeration + bit-provenance + constant comparison', '§4 C09'),
-    'C15': ('proof',
-            'Each premise is discharged on every run: every construction entry point reaches emission only through the gates new/add/insert/finish, add and insert share one inserting routine, builders are created by a single constructor with literal cache geometry and type word; no nondeterministic std effect (keyed hashing, hash-container iteration, time, env, thread/process identity, atomics, pointer-to-integer casts) is reachable from any entry point and the library has no mutable/thread-local static; the cache bucket function is closed arithmetic over node fields and the cache holds no hasher state; rejected calls leave no trace (the check-before-mutate and duplicate-mode rules of C06 are re-decided here). The emitted bytes are therefore a function of the sequence of gate calls.',
+    'C15': ('other',
+            'Claimed as STRUCTURAL, not as proof: seed C15-m6 (checksum over offered bytes: output depends on the sink) was reported only through rules of other properties until R07.1 was shared; the premises listed here are all decided on each run, but completeness of the list is not claimed. ' + 'Each premise is discharged on every run: every construction entry point reaches emission only through the gates new/add/insert/finish, add and insert share one inserting routine, builders are created by a single constructor with literal cache geometry and type word; no nondeterministic std effect (keyed hashing, hash-container iteration, time, env, thread/process identity, atomics, pointer-to-integer casts) is reachable from any entry point and the library has no mutable/thread-local static; the cache bucket function is closed arithmetic over node fields and the cache holds no hasher state; rejected calls leave no trace (the check-before-mutate and duplicate-mode rules of C06 are re-decided here). The emitted bytes are therefore a function of the sequence of gate calls.',
             'Trusts the deny-list of nondeterministic std APIs; calls into user code are outside the property. That add(k) and insert(k, 0) emit the same bytes is argued in DESIGN.md (the output-pushing branch is the identity for zero outputs), not decided.',
             'call-graph reachability with gates + effect classification of resolved callees + constructor/argument provenance', '§4 C15'),
 })
@@ -98,6 +98,25 @@ CLAIMS.update({
             'format-template decoding from compile-time constants + path-sensitive MIR rules + recognised-closure forms', '§4 C19'),
 })
 
+ADDENDA = {
+    'C01': ' Also decided (DESIGN.md §7.6): state/sizes bit fields, decoder dispatch (address 0 <-> the implicit empty final node) and form selection; the writer\'s address-0 shortcut requires final, no transitions and zero final output; the set variant of the common-prefix routine compares by equality only; one-trans output guard.',
+    'C02': ' Also: a one-trans hit is justified by comparing the input accessor with the probe; transition_addr dispatches per node form.',
+    'C03': ' Also: the cut-off does not depend on the lengths of key and bound; a frame is abandoned only when exhausted or pruned and a transition is read only in range; the convenience collectors keep exactly one entry per streamed item.',
+    'C04': ' Also: the provided hint methods of the Automaton trait are the trivially sound ones; the cut-off table of bounded searches; frames abandoned only when exhausted or pruned.',
+    'C05': ' Also: the emit flag of difference is re-armed per candidate and cleared exactly on key equality.',
+    'C07': ' Also: the adapter does not forward to the inner writer a second time before accounting.',
+    'C09': ' Also: files the CLI writes FSTs into are created empty (File::create / truncate / create_new).',
+    'C10': ' Also: the format constants and the reader half of the layout table (offsets, scan window, bit fields of every node accessor) are decided under this property too.',
+    'C11': ' Also: no BufWriter / LineWriter is put around the sink without being flushed or unwrapped (its Drop discards write errors); positive control in the fixture.',
+    'C12': ' Also: a miss inspects every cell of the row (row length = the shipped column literal) and overwrites the last cell; is_none tests equality with the fresh-cell marker; the address-0 shortcut guard; freeze-loop depth (len - istate >= 2 in exact linear form) and child linking.',
+    'C13': ' Also: no builder front end collects or sorts its input.',
+    'C14': ' Also: sized allocations on the reader / stream side request a constant or capped capacity; the entry lists are cleared per candidate after its slot is taken.',
+    'C15': ' Also: rejected calls leave no trace (R06.x shared) and checksum / addresses depend on the accepted bytes only (R07.1 shared).',
+    'C16': ' Also: the step follows take_while(output <= remaining).last(); success is tested before the first step and concerns one node.',
+    'C18': ' Also decided as shape: Str and Subsequence start at position 0, advance by one exactly on byte equality with the pattern byte at the current position, Str matches at its length; provided trait hints.',
+    'C19': ' Also: lossless batching of the work list (no chunks_exact / take / truncate), the row iterators over several input files end only when the file list is empty.',
+}
+
 NOT_APPLICABLE = {
     'C17': 'Acceptance is a property of a DFA constructed at run time from the query; no clause has a structural counterpart that a sound static rule within reach could decide (DESIGN.md §6).',
 }
@@ -112,6 +131,7 @@ def main():
         if pid not in CLAIMS:
             continue
         cat, text, note, tech, ref = CLAIMS[pid]
+        text = text + ADDENDA.get(pid, '')
         checks.append({
             'property_id': pid,
             'quick_cmd': './check %s --tier quick' % pid,
